@@ -30,6 +30,7 @@ package main
 import (
 	"bytes"
 	"encoding/hex"
+	"flag"
 	"fmt"
 	"os"
 	"runtime/debug"
@@ -79,7 +80,15 @@ type result struct {
 }
 
 func errClass(s string) string {
-	// first line, digits stripped
+	// canopy errors render as "\nModule: m\nCode: n\nMessage: text": keep module + message, digits stripped
+	if i := strings.Index(s, "Message:"); i >= 0 {
+		mod := ""
+		if j := strings.Index(s, "Module:"); j >= 0 && j < i {
+			mod = strings.TrimSpace(strings.SplitN(s[j+7:], "\n", 2)[0]) + ": "
+		}
+		s = mod + strings.TrimSpace(s[i+8:])
+	}
+	s = strings.TrimSpace(s)
 	if i := strings.IndexByte(s, '\n'); i >= 0 {
 		s = s[:i]
 	}
@@ -247,7 +256,7 @@ func (w *world) runCases(res *result, part string, cases []tcase, lo, hi int, on
 			if _, e := w.N.Propose(); e != nil {
 				cs2 := append([]string{}, tc.classes...)
 				sort.Strings(cs2)
-				res.Observations[fmt.Sprintf("after committing on a certificate of class [%s] (valid=%v) the node cannot build the next block: %s", strings.Join(cs2, "+"), v.ok, errClass(e.Error()))]++
+				res.Observations[fmt.Sprintf("part %s: after committing on a certificate of class [%s] (predicate=%v) the node cannot build the next block: %s", part, strings.Join(cs2, "+"), v.ok, errClass(e.Error()))]++
 			}
 			w.N.Close()
 			w.N = nil
@@ -613,6 +622,7 @@ func main() {
 		debug.SetGCPercent(400)
 		mc.ServeWorker(func(j job) result { return runJob(j) })
 	}
+	filter := flag.String("filter", "", "only run jobs whose cfg/part contains this substring (mutant runs)")
 	r := mc.Start("C02", "exploration", 85*time.Second, 25*time.Minute)
 	r.Assumptions = []string{
 		"cryptographic assumption (Dolev-Yao attacker): an aggregate BLS signature verifies iff it was formed over exactly the certificate's sign bytes, inside the same ordered committee, by exactly the members named by the bitmap; the attacker recombines honest signatures and signs with no honest key",
@@ -632,9 +642,10 @@ func main() {
 	// job list: per config x part, deviation parts chunked
 	var jobs []job
 	for _, c := range configs {
+		// case lists are deterministic per configuration, so index ranges are stable across workers
 		jobs = append(jobs, job{Cfg: c.Name, Part: "subsets", Hi: -1, Quick: quick})
-		jobs = append(jobs, job{Cfg: c.Name, Part: "singles", Hi: -1, Quick: quick})
-		jobs = append(jobs, job{Cfg: c.Name, Part: "last", Hi: -1, Quick: quick})
+		jobs = append(jobs, job{Cfg: c.Name, Part: "singles", Lo: 0, Hi: 50, Quick: quick}, job{Cfg: c.Name, Part: "singles", Lo: 50, Hi: 100, Quick: quick}, job{Cfg: c.Name, Part: "singles", Lo: 100, Hi: -1, Quick: quick})
+		jobs = append(jobs, job{Cfg: c.Name, Part: "last", Lo: 0, Hi: 40, Quick: quick}, job{Cfg: c.Name, Part: "last", Lo: 40, Hi: 80, Quick: quick}, job{Cfg: c.Name, Part: "last", Lo: 80, Hi: 120, Quick: quick}, job{Cfg: c.Name, Part: "last", Lo: 120, Hi: -1, Quick: quick})
 	}
 	fs := []string{"n4-5/1/1/1"}
 	if !quick {
@@ -653,6 +664,16 @@ func main() {
 				}
 			}
 		}
+	}
+	if *filter != "" {
+		var keep []job
+		for _, j := range jobs {
+			if strings.Contains(j.Cfg+"/"+j.Part, *filter) {
+				keep = append(keep, j)
+			}
+		}
+		jobs = keep
+		r.Exhaustive = false
 	}
 	// longest first
 	sort.SliceStable(jobs, func(a, b int) bool { return rank(jobs[a]) > rank(jobs[b]) })
@@ -797,7 +818,7 @@ func doReplay(r *mc.Run) {
 		for _, v := range res.Viols {
 			r.OnViol(v)
 		}
-		fmt.Printf("replay %d: cases=%d accepted=%d rejected=%d errs=%v\n", i, res.Cases, res.Accepted, res.Rejected, res.ErrClasses)
+		fmt.Printf("replay %d: cases=%d accepted=%d rejected=%d errs=%v observations=%v\n", i, res.Cases, res.Accepted, res.Rejected, res.ErrClasses, res.Observations)
 	}
 	r.Finish(map[string]any{"evaluations": n, "distinct_nontrivial": 1, "rule": "replay of one case x5"})
 }
